@@ -498,7 +498,7 @@ func cmdCheck(args []string) int {
 	// call or to die at a chosen instant without ptrace.
 	var nativeCands []cand
 	for _, c := range cands {
-		if !usesInjection(c.v.Inputs) {
+		if !usesInjection(c.v.Inputs) && !c.v.Ghost {
 			nativeCands = append(nativeCands, c)
 			continue
 		}
@@ -515,7 +515,7 @@ func cmdCheck(args []string) int {
 			}
 		}
 		if ok {
-			c.v.Detail = strings.TrimSpace(c.v.Detail + " [confirmed by concrete re-execution of the real SSA with the model's inputs; depends on an injected fault or kill point]")
+			c.v.Detail = strings.TrimSpace(c.v.Detail + " [confirmed by concrete re-execution of the real SSA with the model's inputs; depends on an injected fault, a kill point or the durability ghost state of the file-system model]")
 			confirmed = append(confirmed, c)
 		} else {
 			mismatches = append(mismatches, fmt.Sprintf("%s label=%s: solver model does not reproduce in concrete re-execution", c.run.spec.Func, c.v.Label))
